@@ -958,8 +958,17 @@ func (s *MemoryStore) MarkDead(leaseID string, reason string) error {
 	env.LeaseID = ""
 	env.LeaseUntil = time.Time{}
 	env.NextRunAt = now
-	env.DeadReason = reason
+	env.DeadReason = normalizeDeadReason(reason)
 	return nil
+}
+
+// normalizeDeadReason stores a blank reason as no reason, as the SQLite store
+// does (it writes NULL for a blank dead_reason).
+func normalizeDeadReason(reason string) string {
+	if strings.TrimSpace(reason) == "" {
+		return ""
+	}
+	return reason
 }
 
 func (s *MemoryStore) MarkDeadBatch(leaseIDs []string, reason string) (LeaseBatchResult, error) {
@@ -1005,7 +1014,7 @@ func (s *MemoryStore) MarkDeadBatch(leaseIDs []string, reason string) (LeaseBatc
 		env.LeaseID = ""
 		env.LeaseUntil = time.Time{}
 		env.NextRunAt = now
-		env.DeadReason = reason
+		env.DeadReason = normalizeDeadReason(reason)
 		res.Succeeded++
 	}
 
